@@ -1,0 +1,36 @@
+//go:build verif
+
+package blobstore
+
+import (
+	"context"
+	"sync/atomic"
+
+	git "github.com/dolthub/dolt/go/store/blobstore/internal/git"
+)
+
+// verifPushHook wraps a GitAPI and calls |before| ahead of every PushRefWithLease, with the
+// 1-based number of the push attempt (verification harness only: lets a test schedule another
+// client's write between this client's fetch+validate and its lease-guarded push).
+type verifPushHook struct {
+	git.GitAPI
+	before func(ctx context.Context, attempt int)
+	n      atomic.Int64
+}
+
+func (h *verifPushHook) PushRefWithLease(ctx context.Context, remote string, srcRef string, dstRef string, expectedDstOID git.OID) error {
+	if h.before != nil {
+		h.before(ctx, int(h.n.Add(1)))
+	}
+	return h.GitAPI.PushRefWithLease(ctx, remote, srcRef, dstRef, expectedDstOID)
+}
+
+// VerifHookPush installs |before| on gbs (replacing an earlier hook); nil removes it.
+func VerifHookPush(gbs *GitBlobstore, before func(ctx context.Context, attempt int)) {
+	if h, ok := gbs.api.(*verifPushHook); ok {
+		gbs.api = h.GitAPI
+	}
+	if before != nil {
+		gbs.api = &verifPushHook{GitAPI: gbs.api, before: before}
+	}
+}
